@@ -26,6 +26,7 @@ import dns.rdata
 import dns.rdataclass
 import dns.rdataset
 import dns.rdatatype
+import dns.transaction
 import dns.versioned
 import dns.zone
 
@@ -37,7 +38,12 @@ NB = dns.name.from_text("b", None)
 TXT = dns.rdatatype.TXT
 IN = dns.rdataclass.IN
 
+class Boom(Exception):
+    pass
+
+
 _CUR = [None]  # the scheduler of the run in progress (one run at a time per process)
+_ALIAS = {}  # scheduler thread id -> specification writer id (only differs in hand-off runs)
 
 
 class RecTxn(dns.zone.Transaction):
@@ -46,7 +52,8 @@ class RecTxn(dns.zone.Transaction):
     def __init__(self, *a, **kw):
         super().__init__(*a, **kw)
         s = _CUR[0]
-        self._v_owner = (s.current() or 0) if s is not None else 0
+        me = (s.current() or 0) if s is not None else 0
+        self._v_owner = _ALIAS.get(me, me)
 
 
 def zone_class(name):
@@ -61,6 +68,7 @@ def trace_codes(zcls):
           zcls._end_read, zcls._prune_versions_unlocked, zcls._get_next_version_id,
           zcls.set_pruning_policy, zcls.set_max_versions,
           dns.zone.Transaction._setup_version, dns.zone.Transaction._end_transaction,
+          dns.transaction.Transaction.__exit__, dns.transaction.Transaction._end,
           dns.zone.WritableVersion.__init__]
     return {f.__code__ for f in fs}
 
@@ -140,7 +148,7 @@ class Run:
         }
 
     def observe(self, tid, kind, obj, info):
-        e = {"op": kind, "t": tid, "o": 0}
+        e = {"op": kind, "t": _ALIAS.get(tid, tid), "o": 0}
         if isinstance(obj, sched.ShimEvent):
             e["o"] = obj.idx
             if kind == "newevent":
@@ -154,24 +162,65 @@ class Run:
         self.ev.append(e)
 
     # -- logical threads
+    # how a writer leaves its transaction.  "commit" / "rollback" / "empty" call commit() / rollback() /
+    # commit() without changes explicitly; the others leave a `with zone.writer() as txn:` block by raising
+    # AFTER having written (so a write that leaks or is committed shows in the content): an Exception, or a
+    # BaseException that is not an Exception (SystemExit, KeyboardInterrupt, GeneratorExit), caught by the
+    # thread body outside the block.  All of them must end the write transaction (rollback path of the spec).
+    LEAVE = {"raise": Boom, "exit": SystemExit, "interrupt": KeyboardInterrupt, "genexit": GeneratorExit}
+
+    def _in_txn(self, tid, k, how, txn):
+        s = self.s
+        tag = tid * 10 + k
+        s.yield_point("returned")
+        s.observe("returned", None, ver=int(txn.version.id), snap=tags_in_txn(txn, NA), snapb=tags_in_txn(txn, NB))
+        s.yield_point("body")
+        read = tags_in_txn(txn, NA)
+        if how == "commit" or how in self.LEAVE:
+            txn.replace(NA, make_rds(read + [tag]))
+            txn.replace(NB, make_rds(read + [tag]))
+        s.observe("body", None, how=how, read=read)
+
     def writer_thread(self, tid, hows):
         s, z = self.s, self.zone
         for k, how in enumerate(hows, start=1):
-            tag = tid * 10 + k
-            txn = z.writer()
-            s.yield_point("returned")
-            s.observe("returned", None, ver=int(txn.version.id), snap=tags_in_txn(txn, NA), snapb=tags_in_txn(txn, NB))
-            s.yield_point("body")
-            read = tags_in_txn(txn, NA)
-            if how == "commit":
-                txn.replace(NA, make_rds(read + [tag]))
-                txn.replace(NB, make_rds(read + [tag]))
-            s.observe("body", None, how=how, read=read)
-            if how == "rollback":
-                txn.rollback()
+            if how in self.LEAVE:
+                exc = self.LEAVE[how]
+                try:
+                    with z.writer() as txn:
+                        self._in_txn(tid, k, how, txn)
+                        raise exc()
+                except exc:
+                    pass
             else:
-                txn.commit()
+                txn = z.writer()
+                self._in_txn(tid, k, how, txn)
+                if how == "rollback":
+                    txn.rollback()
+                else:
+                    txn.commit()
             s.emit("ended", how=how)
+
+    # Hand-off: transaction objects are not bound to the thread that opened them.  OS thread A (scheduler id 1)
+    # opens the transaction of specification writer 1, hands the object to a helper thread (scheduler id 8) that
+    # ends it, and itself goes on calling writer() again as specification writer 2.  Events carry the
+    # specification writer id (_ALIAS), schedules the scheduler ids.
+    def handoff_thread(self, how1, hows2):
+        txn = self.zone.writer()
+        self._in_txn(1, 1, how1, txn)
+        self.box.append(txn)
+        _ALIAS[1] = 2
+        self.writer_thread(2, hows2)
+
+    def helper_thread(self, how1):
+        s = self.s
+        s.yield_point("handoff", None, lambda: bool(self.box))
+        txn = self.box[0]
+        if how1 == "rollback":
+            txn.rollback()
+        else:
+            txn.commit()
+        s.emit("ended", how=how1)
 
     def reader_thread(self, tid, n, mode):
         s, z = self.s, self.zone
@@ -209,8 +258,17 @@ class Run:
             z._version_lock = self.lock
             dns.versioned.threading = self.s.shim
             dns.versioned.Transaction = RecTxn
+            _ALIAS.clear()
+            self.box = []
+            hand = bool(job.get("handoff"))
             for i, hows in enumerate(job["plan"], start=1):
-                if hows:
+                if hand and i == 1:
+                    _ALIAS[8] = 1
+                    self.s.spawn(1, self.handoff_thread, hows[0], list(job["plan"][1]))
+                    self.s.spawn(8, self.helper_thread, hows[0])
+                elif hand and i == 2:
+                    continue  # specification writer 2 is the continuation of OS thread 1
+                elif hows:
                     self.s.spawn(i, self.writer_thread, i, hows)
             for i, n in enumerate(job["rplan"], start=5):
                 if n:
@@ -222,6 +280,7 @@ class Run:
             dns.versioned.threading = old_thr
             dns.versioned.Transaction = old_txn
             _CUR[0] = None
+            _ALIAS.clear()
         if not (res.deadlock or res.budget_exceeded):
             st = self.state()
             st["lk"] = 0 if self.lock.owner is None else 99
@@ -255,7 +314,7 @@ def run_one(job):
     plan = [list(x) for x in job["plan"]] + [[] for _ in range(4 - len(job["plan"]))]
     rplan = list(job["rplan"]) + [0] * (2 - len(job["rplan"]))
     rmode = (list(job.get("rmode", [])) + ["latest", "latest"])[:2]
-    tr = {"tid": job["tid"], "plan": plan, "rplan": rplan, "rmode": rmode, "pplan": list(job.get("pplan", [])), "vid0": vid0, "mode": job["mode"],
+    tr = {"tid": job["tid"], "plan": plan, "rplan": rplan, "rmode": rmode, "pplan": list(job.get("pplan", [])), "vid0": vid0, "mode": job["mode"], "handoff": bool(job.get("handoff")),
           "zclass": job.get("zclass", "versioned"), "meta": meta, "ev": ev}
     return tr, res
 
@@ -277,7 +336,7 @@ def set_sched(tr, res):
 
 def ev_key(tr):
     """Two runs with the same key are indistinguishable to the trace specification."""
-    return repr((tr["plan"], tr["rplan"], tr["rmode"], tr["pplan"], tr["vid0"], tr["ev"]))
+    return repr((tr["plan"], tr["rplan"], tr["rmode"], tr["pplan"], tr["vid0"], tr.get("handoff"), tr["ev"]))
 
 
 def run_bounded(job):
